@@ -49,5 +49,17 @@ case "$what" in
   done
   exit $rc
   ;;
+ sensitivity)
+  # every seeded change that lies inside its property's quantifier must be caught by that property's quick check
+  rc=0
+  for d in "$VERIF"/seeded/*/; do
+    inclass="$(python3 -c "import json;print(json.load(open('$d/meta.json')).get('inside_property_quantifier',True))")"
+    [ "$inclass" = "True" ] || { echo "skip $(basename "$d") (outside its property's quantifier, see meta.json)"; continue; }
+    res="$("$VERIF/sim/seedcheck.sh" "$d" 2>&1 | tail -1)"
+    echo "$(basename "$d"): $res"
+    case "$res" in *CAUGHT*) ;; *) rc=1;; esac
+  done
+  exit $rc
+  ;;
  *) echo "usage: selftest.sh preserve|determinism|sensitivity" >&2; exit 2;;
 esac
